@@ -175,6 +175,9 @@ def evaluate(s, rec):
                 break
         rec.count('rows_replayed', len(todo))
         # ---- statistics block and JSON
+        if good and not r.get('ok'):
+            # iterations succeeded and left rows, yet the run ends without describing them
+            bad('no_summary_although_rows_exist', {'rows': len(good), 'error': str(r.get('error'))[:300], 'n_outputs': len(s['outputs'])})
         if good and r.get('ok'):
             try:
                 arr = np.array([[float(o.replace(',', '')) for o in p[0]] for p in good])
